@@ -15,7 +15,7 @@ UNVERIFIED = [
     "every other validation rule (FieldsOnCorrectType, ScalarLeafs, PossibleFragmentSpreads, ...) versus the executor",
     "ProvidedRequiredArgumentsRule versus coerce_argument's required-argument raise (planned)",
     "the Sub/Compat => Valid/Conf transfer lemmas (depend on the C15 input-validity theory)",
-    "shape of the response for an accepted document",
+    "shape of the response for an accepted document (only: the sub-selection memo that assembles it is keyed by the return type and the field group, MEMO-M1/M2)",
 ]
 TRUSTED = []
 ASSUMPTIONS = [A["A1"], A["A2"], A["A3"], A["A7"], A["A8"], A["ENGINE"],
@@ -23,7 +23,16 @@ ASSUMPTIONS = [A["A1"], A["A2"], A["A3"], A["A7"], A["A8"], A["ENGINE"],
 LIFTERS = []
 
 
+def _memo(world):
+    from .C02 import memo_obligations
+    return [o for o in memo_obligations(world) if o["func"] == "Executor.collect_subfields"]
+
+
 def extra_obligations(world, tier, seed):
+    return _memo(world) + _lemmas()
+
+
+def _lemmas():
     import time
     import z3
     from theories import gtypes
